@@ -24,7 +24,7 @@ from .. import core, sxvm
 LEVEL = "exploration"
 RULE = ("n in {1,2,3}, m in {1,2} on full lattices + n in {4,5,6} (thorough 7,8), m in {1,2,3} on designed families (6 factors x 1+2n^2+4 F x 4 Q; single-entry / dense H); W lower triangular with off-diagonal in {-1,0,2}, diagonal in {1,3} (all); F entries in {-1,0,1} "
         "(n<=2 all, n=3 a deterministic covering family); Q = A A^T for A in a small integer set incl. 0 and singular; H in {-1,0,1}^(m x n) all; "
-        "SPD = B B^T + I; RK4 fields cubic-in-time, linear, rotation; h in {1/1000,1/10,1,-1/2}; right-hand sides as callables {closure over the step's symbols, nested rk4, numeric constant}; caller's symbols named {X,x,W,L,P,D,K,a,t,y,h,k1} in every argument slot. non-trivial = not all-zero F/Q/H; distinct by input tuple")
+        "SPD = B B^T + I; RK4 fields cubic-in-time, linear, rotation; h in {1/1000,1/10,1,-1/2}; right-hand sides as callables {closure over the step's symbols, nested rk4, numeric constant}; caller's symbols named {X,x,W,L,P,D,K,a,t,y,h,k1} in every argument slot; matrices scaled to 1e-300 .. 2^-1065 and 1e300; 8 pairs of routines in two threads, all interleavings of util.py's statements with <= 1 (thorough 2) preemptions. non-trivial = not all-zero F/Q/H; distinct by input tuple")
 ASSUMPTIONS = ["Python Fraction / mpmath arithmetic is exact / 60 digits; the interpreted program is the real instruction list (bitwise conformance-gated in float)",
                "matrix sizes above the bound are not covered"]
 
